@@ -110,6 +110,38 @@ Proof. unfold abs_pend. change None with (option_map idn None) at 1. apply map_n
 Lemma abs_pend_length pl : length (abs_pend pl) = length pl.
 Proof. apply map_length. Qed.
 
+
+(* clearing slot k of a pending list *)
+Fixpoint upd_none (k : nat) (l : list (option nat)) : list (option nat) :=
+  match l, k with
+  | [], _ => []
+  | _ :: t, O => None :: t
+  | x :: t, S k' => x :: upd_none k' t
+  end.
+
+Lemma abs_pend_upd k pl : abs_pend (RM.upd_opt k pl) = upd_none k (abs_pend pl).
+Proof. revert k. induction pl as [|x pl IH]; intros [|k]; simpl; auto. rewrite IH. reflexivity. Qed.
+
+Lemma null_pend_notin o l : ~ In o (somes l) -> null_pend o l = l.
+Proof.
+  unfold null_pend. induction l as [|[y|] l IH]; simpl; intros H; auto.
+  - destruct (Nat.eqb_spec y o) as [->|Hne]; [exfalso; apply H; left; reflexivity|].
+    rewrite IH; [reflexivity | intros Hin; apply H; right; exact Hin].
+  - rewrite IH; [reflexivity | exact H].
+Qed.
+
+(* with no duplicates in the pending list, NULL-ing "every entry equal to o" is clearing the slot *)
+Lemma null_pend_upd l : forall k o, NoDup (somes l) -> nth k l None = Some o -> null_pend o l = upd_none k l.
+Proof.
+  induction l as [|[y|] l IH]; intros [|k] o Hnd Hn; simpl in *; try discriminate.
+  - inversion Hn; subst y. inversion Hnd; subst. rewrite Nat.eqb_refl.
+    fold (null_pend o l). rewrite null_pend_notin; [reflexivity | assumption].
+  - inversion Hnd; subst. destruct (Nat.eqb_spec y o) as [->|Hne].
+    + exfalso. apply H1. eapply nth_in_somes. exact Hn.
+    + fold (null_pend o l). rewrite (IH k o H2 Hn). reflexivity.
+  - fold (null_pend o l). rewrite (IH k o Hnd Hn). reflexivity.
+Qed.
+
 (* ------------------------------------------------------------------ 2. the relation *)
 Section Glue.
   Variable hashf : N -> N.
@@ -428,6 +460,68 @@ Section Glue.
         split; [exact T2|]. apply rel_finish; [exact R2|].
         destruct (LifecycleProofs.gc_rem_ok _ _ (finalise_ok fm') (idn q :: A) s1 (idn t) G1 Hm1) as (G2 & _).
         destruct (g_prog _ _ G2 (idn q) (or_introl eq_refl)). lia.
+  Qed.
+
+  (* the finaliser the events of the life-cycle machine use (fuel computed from the state) *)
+  Lemma finsim_top n f : FinSim finT n f.
+  Proof.
+    split; [apply fin_top_ok|].
+    intros A g s q g' T R G Hr Hp Hf Hinfo _ H. unfold fin_top.
+    destruct (sim_fin f (fuel_of s)) as [_ HS].
+    apply (HS A g s q g' T R G Hr Hp Hf Hinfo); [unfold fuel_of, measure; lia | exact H].
+  Qed.
+
+  (* GC_Rem — del, del_root, and the `del` a destructor issues, also while a sweep is in progress
+     (pending list not empty) — on the concrete table is GC_Rem of the life-cycle machine *)
+  Theorem glue_rem : forall f A g s p g',
+    Tab g -> Rel g s -> GInv A s ->
+    Crem f g p = Some g' -> Tab g' /\ Rel g' (gc_rem true finT s (idn p)).
+  Proof.
+    intros [|f] A g s p g' T R G H; [discriminate|].
+    apply (sim_rem_step finT (S (measure s)) f (finsim_top _ f) A g s p g' T R G); [lia | exact H].
+  Qed.
+
+  (* dealloc(destruct(q)) of an object that is neither registered nor pending (del_raw) *)
+  Theorem glue_finalise : forall f A g s q g',
+    Tab g -> Rel g s -> GInv A s ->
+    ~ In (idn q) (regids s) -> ~ In (idn q) (pids s) -> fin_count s (idn q) = 0 -> info s (idn q) <> None ->
+    Cfinw (Crem f) g q = Some g' -> Tab g' /\ Rel g' (finT s (idn q)).
+  Proof.
+    intros f A g s q g' T R G Hr Hp Hf Hi H.
+    destruct (finsim_top (S (measure s)) f) as [_ HS].
+    apply (HS A g s q g' T R G Hr Hp Hf Hi); [lia | exact H].
+  Qed.
+
+  (* ---------------------------------------------------------------- 4. the sweep *)
+  Local Notation Cfinloop := (RM.fin_loop hashf gc_swap gc_primes gc_load_num gc_load_den (RP.d_owns d) (RP.d_spawns d) true true).
+
+  (* the finaliser loop of GC_Sweep, destructor-issued removals included *)
+  Lemma sim_fin_loop fin n f : FinSim fin n f -> forall c k A g s g',
+    Tab g -> Rel g s -> GInv A s -> measure s < n ->
+    Cfinloop c k f g = Some g' -> Tab g' /\ Rel g' (sweep_loop true fin c k s).
+  Proof.
+    intros [HF HS]. induction c as [|c IH]; intros k A g s g' T R G Hm H; cbn [RM.fin_loop sweep_loop] in *.
+    - inversion H; subst. auto.
+    - rewrite (rel_pend g s R), abs_pend_nth.
+      destruct (nth k (RM.pending g) None) as [q|] eqn:Hn; simpl option_map; cbv iota.
+      + assert (Hn' : nth k (pend s) None = Some (idn q)) by (rewrite (rel_pend g s R), abs_pend_nth, Hn; reflexivity).
+        assert (Hin : In (idn q) (pids s)) by (eapply nth_in_somes; exact Hn').
+        destruct (null_pend_ok A s (idn q) G Hin) as (G1 & N1 & N2 & F0 & M1 & R1 & I1 & D1 & T1 & B1 & O1 & L1 & Rg1 & P1 & K1).
+        rewrite <- (rel_pend g s R).
+        set (s0 := set_pend (null_pend (idn q) (pend s)) s) in *.
+        set (g1 := RM.set_pending g (RM.upd_opt k (RM.pending g))) in *.
+        assert (T1' : Tab g1).
+        { apply (tab_fields g); auto. intros Hpe. rewrite Hpe in Hn. destruct k; discriminate. }
+        assert (R1' : Rel g1 s0).
+        { constructor; try apply R. unfold s0, g1. simpl.
+          rewrite (null_pend_upd (pend s) k (idn q) (g_pend_nodup _ _ G) Hn'), (rel_pend g s R). symmetry. apply abs_pend_upd. }
+        assert (Hinf : info s0 (idn q) <> None) by (rewrite I1; apply (g_info _ _ G); right; exact Hin).
+        unfold RM.finalise in H.
+        destruct (Cfinw (Crem f) g1 q) as [g2|] eqn:Hfin; [|discriminate].
+        destruct (HS A g1 s0 q g2 T1' R1' G1 N1 N2 F0 Hinf ltac:(unfold measure in *; lia) Hfin) as [T2 R2].
+        destruct (HF A s0 (idn q) G1 N1 N2 F0 Hinf ltac:(unfold measure in *; lia)) as (G2 & _ & _ & _ & M2).
+        apply (IH (S k) A g2 (fin s0 (idn q)) g' T2 R2 G2 ltac:(unfold measure in *; lia) H).
+      + apply (IH (S k) A g s g' T R G Hm H).
   Qed.
 
 End Glue.
